@@ -13,6 +13,8 @@ Failed(r) ==
     LET b == WorkBound(r.n + r.e + r.len + (IF Has(r, "outn") THEN r.outn ELSE 0)) IN
     Clause("MACHINERY_budget_differs_from_spec_bound", r.budget = b)
     \cup Clause("work_within_bound_" \o r.kind, r.work <= b /\ r.aborted = 0)
+    \* parsers of byte strings: peak allocation (KiB) is bounded by the input length, not by a count field read from it
+    \cup Clause("memory_within_bound_" \o r.kind, Has(r, "peakkb") => r.peakkb <= 1024 + 8 * r.len)
 TInit == KitInit
 TNext == KitNext(Failed)
 =============================================================================
